@@ -17,6 +17,10 @@ def replay(prop, path):
     with open(path) as f:
         r = json.load(f)
     mod = importlib.import_module(f"vp.props.{prop.lower()}")
+    if r.get("kind") == "driver-exception":
+        print(f"recorded: the library raised {r.get('exception')}: {r.get('message')}\n at {r.get('traceback')}\n"
+              f"re-running the quick check of {prop} ...")
+        return main([prop, "quick"])
     if hasattr(mod, "replay") and r.get("kind") != "event":
         ok, text = mod.replay(r)
     else:
@@ -88,8 +92,25 @@ def main(argv):
         if ctx:
             ctx.abort_cleanup()
         return 2
-    except Exception:
+    except Exception as ex:
         traceback.print_exc()
+        # An exception that comes OUT OF THE LIBRARY while a driver prepares its inputs (packing a valid unit, building an
+        # object from legal arguments - calls that succeed on a tree where the property holds) is a deviation of the library,
+        # not a failure of the machinery: it is reported as a violation.
+        repo = os.path.abspath(os.environ.get("VERIF_REPO", "/repo")) + os.sep
+        frames = traceback.extract_tb(ex.__traceback__)
+        lib = [f for f in frames if os.path.abspath(f.filename).startswith(repo)]
+        if ctx and lib:
+            last = lib[-1]
+            try:
+                ctx.violation(f"driver/{type(ex).__name__}/{os.path.basename(last.filename)}:{last.name}",
+                              f"the library raised {type(ex).__name__}: {ex} in {os.path.basename(last.filename)}:{last.lineno} "
+                              f"({last.name}) while the driver was preparing valid inputs; the check could not be completed",
+                              {"kind": "driver-exception", "exception": type(ex).__name__, "message": str(ex)[:300],
+                               "traceback": [f"{os.path.basename(f.filename)}:{f.lineno}:{f.name}" for f in frames][-12:]})
+                return ctx.finish()
+            except Exception:  # noqa
+                traceback.print_exc()
         print(f"MACHINERY-ERROR {prop}: unexpected exception in the harness", file=sys.stderr)
         if ctx:
             ctx.abort_cleanup()
